@@ -498,6 +498,23 @@ Fixpoint class_items (l : list sx) : option (list citem) :=
 
 Definition greedy_of (st : dst) (g : bool) : bool := if f_U (d_fl st) then negb g else g.
 
+(* "{007}" "{1,02}": a count with a leading zero.  Go's regexp/syntax (parseInt: "disallow leading zeros") reads such a
+   brace expression as LITERAL TEXT, the checker's parser reads a repeat: the tree does not say what Go matches, so it
+   does not elaborate (outside the model, like \p{..}) *)
+Fixpoint zero_padded_from (s : string) (at_start : bool) : bool :=
+  match s with
+  | String a r =>
+      let b := byte_of a in
+      if at_start && (b =? 48) then
+        match r with
+        | String c _ => if (48 <=? byte_of c) && (byte_of c <=? 57) then true else zero_padded_from r false
+        | EmptyString => false
+        end
+      else zero_padded_from r (negb ((48 <=? b) && (b <=? 57)))
+  | EmptyString => false
+  end.
+Definition zero_padded (rep : string) : bool := zero_padded_from rep false.
+
 Definition quant_build (st : dst) (g : bool) (qo : op) (rep : string) (x : rx) : option rx :=
   let g' := greedy_of st g in
   match qo with
@@ -508,7 +525,7 @@ Definition quant_build (st : dst) (g : bool) (qo : op) (rep : string) (x : rx) :
       match parse_repeat rep with
       | Some (mn, mx) =>
           let bad := match mx with Some v => Nat.ltb v mn || Nat.ltb 1000 v | None => false end in
-          if bad || Nat.ltb 1000 mn then None else Some (build_repeat g' x mn mx)
+          if bad || Nat.ltb 1000 mn || zero_padded rep then None else Some (build_repeat g' x mn mx)
       | None => None
       end
   | _ => None
